@@ -7,7 +7,9 @@ use cc_traits::Remove;
 use lattices::collections::{ArraySet, SingletonSet};
 use lattices::map_union::{KeyedBimorphism, MapUnion};
 use lattices::set_union::{CartesianProductBimorphism, SetUnion};
+use lattices::map_union_with_tombstones::MapUnionWithTombstones;
 use lattices::set_union_with_tombstones::SetUnionWithTombstones;
+use lattices::Max;
 use lattices::tombstone::TombstoneSet;
 use lattices::union_find::UnionFind;
 use lattices::{Atomize, IsBot, IsTop, LatticeBimorphism, Merge, WithBot, WithTop};
@@ -115,6 +117,45 @@ pub(crate) fn tombstone_set_no_resurrection_history() {
     live.extend(later);
     v.merge(SetUnionWithTombstones::new(live, TinySet::default()));
     kani::assert(!v.as_reveal_ref().0.has(x) && v.as_reveal_ref().1.has(x), "C05:deleted_item_never_reappears");
+}
+
+// tombstone MAP variant: keys over a 4-value domain, values Max<u8> (0 = bottom = invisible)
+type Tm = MapUnionWithTombstones<TinyMap<Max<u8>>, TinySet>;
+fn small_map(max: u8) -> TinyMap<Max<u8>> {
+    let mut m = TinyMap::<Max<u8>>::default();
+    let n: u8 = kani::any();
+    kani::assume(n <= max);
+    let (a, b): (u8, u8) = (kani::any(), kani::any());
+    kani::assume(a < DOM && b < DOM);
+    if n >= 1 { m.insert(a, Max::new(kani::any())); }
+    if n >= 2 { kani::assume(a != b); m.insert(b, Max::new(kani::any())); }
+    m
+}
+fn mat(m: &TinyMap<Max<u8>>, k: u8) -> u8 { match m.pos(k) { Some(i) => m.v[i].into_reveal(), None => 0 } }
+fn sym_tm() -> (TinyMap<Max<u8>>, TinySet) {
+    let (m, t) = (small_map(2), small_set(2));
+    let mut i = 0;
+    while i < m.n { kani::assume(!t.has(m.k[i])); i += 1; }   // invariant: no live entry under a tombstone
+    (m, t)
+}
+#[kani::proof] #[kani::unwind(8)]
+pub(crate) fn tombstone_map_merge() {
+    let (a, b) = (sym_tm(), sym_tm());
+    let mut x: Tm = MapUnionWithTombstones::new(a.0, a.1);
+    let changed = x.merge(MapUnionWithTombstones::new(b.0, b.1));
+    let (m, t) = x.into_reveal();
+    let mut differs = false;
+    let mut k = 0u8;
+    while k < DOM {
+        let dead = a.1.has(k) || b.1.has(k);
+        kani::assert(t.has(k) == dead, "C05:map_merge_tombstones_are_the_union");
+        let want = if dead { 0 } else { mat(&a.0, k).max(mat(&b.0, k)) };
+        kani::assert(mat(&m, k) == want, "C05:map_merge_is_keywise_merge_minus_tombstones");
+        if dead { kani::assert(m.pos(k).is_none(), "C05:no_live_entry_under_a_tombstone_nothing_resurrected"); }
+        if mat(&m, k) != mat(&a.0, k) || t.has(k) != a.1.has(k) { differs = true; }
+        k += 1;
+    }
+    kani::assert(changed == differs, "C02:changed_iff_value_differs");
 }
 
 // ---------------------------------------------------------------------------------------------- C06
